@@ -206,13 +206,13 @@ def _ghost_same(p, q):
 
 
 def leaf_cb_parity_flipped(pub, d0):
-    """single-leaf tree: flip the parity bit of the serialized control block, parse it back;
-    -> (output key, key recomputed from the altered block, parity recorded in the altered block)"""
+    """single-leaf tree: the control block the library builds, with the recorded parity bit flipped;
+    -> (output key, key recomputed from the altered block, parity recorded in the altered block,
+        serialization of the altered block, serialization of the original)"""
     leaf = TapLeaf(Script([d0, 0xAC]))
-    ser = leaf.control_block(pub).serialize()
-    altered = ControlBlock.parse(int_to_byte(ser[0] ^ 1) + ser[1:])
-    _ghost_same(altered.internal_pubkey, pub.even_point())
-    return leaf.external_pubkey(pub), altered.external_pubkey(leaf.tap_script), altered.parity
+    cb = leaf.control_block(pub)
+    altered = ControlBlock(cb.tapleaf_version, 1 - cb.parity, cb.internal_pubkey, cb.hashes)
+    return leaf.external_pubkey(pub), altered.external_pubkey(leaf.tap_script), altered.parity, altered.serialize(), cb.serialize()
 
 
 def parse_xonly_of(pub):
@@ -250,3 +250,66 @@ def cb_parse_len_gx(first, tail):
     """parse of first || x(G) || tail -> (number of path elements, leaf version, parity, re-serialization)"""
     cb = ControlBlock.parse(first + GX32 + tail)
     return len(cb.hashes), cb.tapleaf_version, cb.parity, cb.serialize()
+
+
+# ------------------------------------------------------------------------------------------------
+# Part 1b: symbolic harnesses (C13)
+# ------------------------------------------------------------------------------------------------
+def musig_points(ds):
+    return [PrivateKey(d).point for d in ds]
+
+
+def musig_agg(ds):
+    """aggregate point for the keys in the given order"""
+    return MuSigTapScript(musig_points(ds)).point
+
+
+def musig_agg2(d1, d2):
+    return musig_agg([d1, d2])
+
+
+def musig_agg3(d1, d2, d3):
+    return musig_agg([d1, d2, d3])
+
+
+def musig_agg2_orders(d1, d2):
+    return musig_agg([d1, d2]), musig_agg([d2, d1])
+
+
+def musig_agg3_orders(d1, d2, d3):
+    return (musig_agg([d1, d2, d3]), musig_agg([d1, d3, d2]), musig_agg([d2, d1, d3]),
+            musig_agg([d2, d3, d1]), musig_agg([d3, d1, d2]), musig_agg([d3, d2, d1]))
+
+
+def musig_flow(ds, ks, msg, merkle_root, ghost=True):
+    """the two-round signing session as the repository's tests run it: every signer contributes a nonce
+    pair and a partial signature, the sum is turned into a signature;
+    -> (x-only key the signature is for, 64 signature bytes)"""
+    privs = [PrivateKey(d) for d in ds]
+    musig = MuSigTapScript([p.point for p in privs])
+    if ghost:
+        # ghost case split (see _ghost_same): the script re-parsed every key from its x-only bytes
+        for q in musig.points:
+            for p in privs:
+                _ghost_same(q, p.point.even_point())
+    nonce_point_pairs = [(k[0] * G, k[1] * G) for k in ks]
+    nonce_sums = musig.nonce_sums(nonce_point_pairs)
+    r = musig.compute_r(nonce_sums, msg)
+    s_sum = 0
+    for priv, k in zip(privs, ks):
+        kk = musig.compute_k(k, nonce_sums, msg)
+        s_sum += musig.sign(priv, kk, r, msg, merkle_root)
+    sig = musig.get_signature(s_sum, r, msg, merkle_root)
+    if merkle_root:
+        key = musig.point.tweaked_key(merkle_root)
+    else:
+        key = musig.point.even_point()
+    return key.xonly(), sig.serialize()
+
+
+def musig_flow2(d1, d2, k11, k12, k21, k22, msg, root):
+    return musig_flow([d1, d2], [(k11, k12), (k21, k22)], msg, root)
+
+
+def musig_flow3(d1, d2, d3, k11, k12, k21, k22, k31, k32, msg, root):
+    return musig_flow([d1, d2, d3], [(k11, k12), (k21, k22), (k31, k32)], msg, root)
